@@ -398,3 +398,56 @@ def reader_chunk_len(u: U):
                 "one read of min(size, bytes still owed by Content-Length)")
         u.check("C19.length.eof_ends_part", Implies(eof, fields(r)["_at_eof"] is True) if is_sym(eof) else (not eof or fields(r)["_at_eof"] is True),
                 "end of stream ends the part (a truncated body terminates with an error instead of looping)")
+
+
+# ---------------------------------------------------------------------------------------------------------------
+# reader: sub-readers work under the limits of the reader that creates them
+
+
+@unit("C19", "reader.sub_reader_limits", functions=[f"{MP}:MultipartReader._get_part_reader"])
+def reader_sub_reader_limits(u: U):
+    """_get_part_reader: whichever reader it builds for a part - a body-part reader, a nested MultipartReader of the same
+    class or of the configured class - is given this reader's own limits (client_max_size and its error class; for a
+    nested multipart also max_field_size and max_headers, the limits its header block is read under): nesting must not
+    reset a configured limit to its default"""
+    made = []
+
+    class _Nested:
+        def __init__(self, headers, content, **kw):
+            made.append(("nested", type(self).__name__, headers, content, kw))
+
+    class _Custom(_Nested):
+        pass
+
+    class _Part:
+        def __init__(self, boundary, headers, content, **kw):
+            made.append(("part", "part", headers, content, kw))
+
+    nested = u.choose(2, "part_is_multipart") == 1
+    custom = u.choose(2, "multipart_reader_cls_set") == 1
+    ctype = "multipart/mixed; boundary=zz" if nested else "text/plain"
+    lim = {"_client_max_size": u.int("client_max_size", 0), "_max_field_size": u.int("max_field_size", 1),
+           "_max_headers": u.int("max_headers", 1), "_max_size_error_cls": "ERRCLS"}
+
+    class _MT:
+        subtype = "form-data"
+
+    r = u.obj("MultipartReader", dict(lim, _content="CONTENT", _boundary=b"--zz", _mimetype=_MT(), _default_charset=None,
+                                      multipart_reader_cls=_Custom if custom else None, part_reader_cls=_Part),
+              {}, shared=False, real_cls=_Nested, real=(MP, "MultipartReader"))
+    f = u.load(MP, "MultipartReader._get_part_reader")
+    hdrs_ = {"Content-Type": ctype}
+    out = u.call(f, r, hdrs_)
+    u.check("C19.sub.total", out.ok and len(made) == 1, f"{out!r} {made!r}"[:200])
+    if not (out.ok and len(made) == 1):
+        return
+    kind, cls, h, content, kw = made[0]
+    u.check("C19.sub.kind", kind == ("nested" if nested else "part") and (not nested or cls == ("_Custom" if custom else "_Nested"))
+            and h is hdrs_ and content == "CONTENT", "the reader class follows the part's Content-Type and the configured class")
+    same = lambda k, v: k in kw and kw[k] is v
+    u.check("C19.sub.size_limit_inherited", same("client_max_size", lim["_client_max_size"]) and same("max_size_error_cls", "ERRCLS"),
+            "every sub-reader enforces the client_max_size of the reader that created it", witness={"kwargs": sorted(kw)})
+    if nested:
+        u.check("C19.sub.header_limits_inherited", same("max_field_size", lim["_max_field_size"]) and same("max_headers", lim["_max_headers"]),
+                "a nested multipart reads its part headers under the configured max_field_size / max_headers, not under the "
+                "defaults", witness={"kwargs": sorted(kw)})
